@@ -566,9 +566,18 @@ func streamSchema(o *Out, rng *rand.Rand, thorough bool, _ []string) {
 		pool = append(pool, hx(docBytes(schemaDoc(s, int64(3+i)))))
 	}
 	ns := len(allSchemas)
-	maxLen := 4
+	maxLen := 3
 	if thorough {
 		maxLen = 5
+	}
+	// generated pairs: a random schema tree and the same tree after one structural edit (hoist, sink, rename, swap,
+	// wrap, unwrap, retype, add, remove, metric -> non-metric)
+	ne := 1500
+	if thorough {
+		ne = 20000
+	}
+	for _, l := range schemaEditCases(rng, ne) {
+		run(o, l)
 	}
 	cts := []string{"dynamic", "streamingDynamic", "writer", "batch", "base", "streaming"}
 	var rec func(prefix []int)
